@@ -230,6 +230,10 @@ def check(an: Analysis) -> None:
     ctor_calls = [c for c in wrap.own_nodes() if isinstance(c, ast.Call) and an.callee(wrap, c) == tcls.qualname]
     if len(ctor_calls) != 1:
         ob.missing(wrap, None, f"throttle() builds {len(ctor_calls)} throttle objects (expected one)")
+    from ..kinds import unwrapped_returns
+
+    for r_ in unwrapped_returns(an, wrap, {tcls.qualname}):
+        ob.fail(wrap, r_, "throttle() hands some callables back without the throttle wrapper: their calls are not counted against the limit")
     a_delta = Abs("timedelta", "object")
     iparams = [a.arg for a in init.node.args.posonlyargs + init.node.args.args][1:] + [a.arg for a in init.node.args.kwonlyargs]
     for c in ctor_calls:
